@@ -311,7 +311,7 @@ struct Explorer {
             std::vector<std::pair<T, T>> pairs; bool use_create = true; size_t fillers = 0;
             if (init == "empty") use_create = false;
             else if (init.rfind("deep3", 0) == 0) { deep3_history(parse_ops(m.at("ops"))); return; }
-            else if (init.rfind("deep", 0) == 0) { for (size_t i = 0; i < 600; ++i) pairs.emplace_back(T(5 + 2 * i), T(i % 3 + 1)); pairs.emplace_back(T(200000), T(9)); fillers = 585; }
+            else if (init.rfind("deep", 0) == 0) { for (size_t i = 0; i < 600; ++i) pairs.emplace_back(T(5 + 2 * i), T(i % 3 + 1)); pairs.emplace_back(T(200000), T(9)); fillers = init.find("+584") != std::string::npos ? 584 : 585; }
             else for (auto &t : mc::split(init, ';')) { auto c = t.find(':'); pairs.emplace_back(mc::parse_key<T>(t.substr(0, c)), mc::parse_key<T>(t.substr(c + 1))); }
             auto keys = init.rfind("deep", 0) == 0 ? deep_keys() : dyn_keys();
             run_history(pairs, use_create, fillers, parse_ops(m.at("ops")), 0, dyn_queries(keys), init);
@@ -401,6 +401,9 @@ template<typename T> void run_task(Run &run, Cn &cn, const Task &t, bool thoroug
         std::vector<std::pair<T, T>> pairs; for (size_t i = 0; i < 600; ++i) pairs.emplace_back(T(5 + 2 * i), T(i % 3 + 1));
         pairs.emplace_back(T(200000), T(9));
         ex.dynamic_bfs(pairs, true, 585, t.D, t.first_op, ex.deep_keys(), "deep600+585");
+        // one filler fewer: the first operation fills the buffer, possibly with a key that is also stored in level 4, and the second
+        // one works on a full buffer that may already hold its key
+        ex.dynamic_bfs(pairs, true, 584, t.D, t.first_op, ex.deep_keys(), "deep600+584");
     }
     (void) thorough;
 }
@@ -457,7 +460,7 @@ int main(int argc, char **argv) {
     ev.states_counter = "static_indexes_created"; ev.transitions_counter = "static_searches_checked"; ev.nontrivial_counter = "arrays_with_2plus_distinct_keys"; ev.eval_counter = "dynamic_steps_checked";
     ev.rule = "static part: every non-decreasing array of length 1.." + std::to_string(N) + " over four palettes for int32/int64/uint32/uint64, run-time epsilon in {1,2,3,64,4096}, all alphabet queries, plus the two-block grammar for epsilon {1,3,64} and the density family (about 1200 segments, several levels) for epsilon {1,2,3,64}; create must return NULL exactly when the reserved value is present. "
               "dynamic part: every history of length " + std::to_string(D) + " of insert_or_assign/erase over 4 colliding keys x 2 values from create_empty, length " + std::to_string(D - 2) + " from every create() of <= 3 sorted pairs, and length " + std::to_string(Ddeep) +
-              " from a deep state (create of 600 pairs + 585 inserts, so that the next insert merges the buffer into level 4), every three-stage script over a three-level state (create of 5000 pairs in level 5, two buffer flushes into level 4, an insert/erase/no-op on two bulk-loaded keys before, between and after the flushes), and short histories from a huge state (create of 2^21+1 pairs, which lands in a level that owns a PGM-index with the default parameters, followed by 40 consecutive erases); after every step find, lower_bound + iterator_next, begin + iterator_next to exhaustion and size are compared with std::map. Only functions of cpgm.h are called. "
+              " from two deep states (create of 600 pairs + 585 / 584 inserts, so that the next / the one after the next operation finds the buffer full and merges it into level 4), every three-stage script over a three-level state (create of 5000 pairs in level 5, two buffer flushes into level 4, an insert/erase/no-op on two bulk-loaded keys before, between and after the flushes), and short histories from a huge state (create of 2^21+1 pairs, which lands in a level that owns a PGM-index with the default parameters, followed by 40 consecutive erases); after every step find, lower_bound + iterator_next, begin + iterator_next to exhaustion and size are compared with std::map. Only functions of cpgm.h are called. "
               "States = static indexes built (dynamic steps are reported as evaluations); non-trivial = at least two distinct keys.";
     ev.bounds = "N<=" + std::to_string(N) + ", dynamic depth " + std::to_string(D) + "/" + std::to_string(D - 2) + "/" + std::to_string(Ddeep);
     ev.assumptions = {"c-interface/cpgm.cpp compiled from the repository with the engine's flags", "dynamic histories are re-executed from scratch (opaque handles cannot be copied); states after a shared prefix are checked once"};
